@@ -240,8 +240,11 @@ SCENARIOS = [
     # one text row detected as a chain of three fragments (A-B and B-C close, A-C far apart) + a separate line, inside the wide rectangle
     {0: ([1, 9], ['f0', 'f1', 'f2', 'f3']), 1: ([], []), 3: ([], [])},        # region 9 receives no line at all
     {0: ([1], ['z0']), 1: ([], []), 3: ([], []), 'heights': [0, 0]},           # a detection with zero heights (the height map is clamped at 0)
+    # tilted text (4 degrees), lines far enough apart that MERGE_LINES has nothing to merge: every line comes back as it was detected
+    {0: ([0], ['t0', 't1', 't2']), 1: ([], []), 3: ([], []), 'nothing_to_merge': True},
 ]
-FRAGMENTS = {'z0': [(10, 30), (50, 30)], 'f0': [(8, 26), (14, 26.2)], 'f1': [(16, 26.2), (28, 26.6), (40, 26.2)], 'f2': [(42, 26.2), (50, 26)], 'f3': [(10, 36), (50, 36.4)]}
+FRAGMENTS = {'t0': [(14, 15), (44, 17.1)], 't1': [(14, 27), (29, 28.05), (46, 29.24)], 't2': [(16, 40), (40, 41.68)],
+             'z0': [(10, 30), (50, 30)], 'f0': [(8, 26), (14, 26.2)], 'f1': [(16, 26.2), (28, 26.6), (40, 26.2)], 'f2': [(42, 26.2), (50, 26)], 'f3': [(10, 36), (50, 36.4)]}
 
 
 def line_points(i):
@@ -290,7 +293,12 @@ def check_extractor(case, ctx):
             f'stub detections per rotation {scen}')
     key = f'{ID}/LayoutExtractor/' + ('regions-kept' if not dr else 'regions-detected') + ('+multi-orientation' if mo else '')
     # merged lines are re-fitted curves, not pieces of single detections -> containment/ids only
-    ok = check_regions(out.regions, inputs, ctx, key, desc, case, check_presence=False) if not ml else ids_only(out, ctx, key, desc, case)
+    if ml and scen.get('nothing_to_merge'):
+        ok = ids_only(out, ctx, key, desc, case) and check_regions(out.regions, inputs, ctx, key + '/merge-lines-nothing-to-merge', desc, case, check_presence=False)
+        if ok:
+            ctx.tag('merge-lines-on-tilted-text-without-merging')
+    else:
+        ok = check_regions(out.regions, inputs, ctx, key, desc, case, check_presence=False) if not ml else ids_only(out, ctx, key, desc, case)
     if ok and ml and dl and not mo:      # (with several orientations a detection only belongs to the regions of its own pass)
         # merging may join detections, but a detection lying wholly inside a region must still be covered by a line of that region
         import shapely.geometry as sg
@@ -358,6 +366,6 @@ def describe(tier):
         'bounds': BOUNDS[tier], 'alphabets': {'regions': REGIONS, 'baselines': LINES, 'heights': HEIGHTS},
         'assumptions': ['invalid region polygons are judged against their convex hull', 'merged lines (MERGE_LINES) are only checked for containment and ids'],
         'min_nontrivial': 100,
-        'required_tags': ['integer-or-float32-detections', 'several-regions-several-placed-lines', 'several-pieces', 'wholly-inside', 'extractor-pages-with-lines',
+        'required_tags': ['merge-lines-on-tilted-text-without-merging', 'integer-or-float32-detections', 'several-regions-several-placed-lines', 'several-pieces', 'wholly-inside', 'extractor-pages-with-lines',
                           'merge-lines-coverage'],
     }
